@@ -306,6 +306,7 @@ type ValueProfile struct {
 	MaxStr    int  // maximum string length
 	RawBytes  bool // strings of arbitrary bytes instead of lower-case ASCII
 	NilChance int  // percent chance for a pointer to be nil
+	HugePct   int  // percent chance for a string to be 66000..140000 bytes (page bodies beyond 64 KiB)
 }
 
 // Benign is the default profile: small ints, short ASCII strings, finite floats.
@@ -330,6 +331,9 @@ func genVal(r *Rng, v reflect.Value, p ValueProfile, depth int) {
 		v.SetFloat(float64(r.Range(-400, 4000)) / 4)
 	case reflect.String:
 		n := r.Range(0, p.MaxStr)
+		if p.HugePct > 0 && r.Intn(100) < p.HugePct {
+			n = r.Range(66000, 140000)
+		}
 		b := make([]byte, n)
 		for i := range b {
 			if p.RawBytes {
